@@ -832,6 +832,8 @@ fn tokens_case(case: &Value) -> Value {
   }
 }
 
+thread_local! { static WATCHDOG_T0: std::cell::Cell<Option<std::time::Instant>> = const { std::cell::Cell::new(None) }; }
+
 fn main() {
   std::env::set_var("RUST_BACKTRACE", "0");
   let args: Vec<String> = std::env::args().collect();
@@ -878,6 +880,21 @@ fn main() {
       let stdin = std::io::stdin();
       let stdout = std::io::stdout();
       let mut n = 0usize;
+      // per-case watchdog (VH_CASE_TIMEOUT_MS): a case that does not return in time ends the process with exit code 97,
+      // the orchestrator attributes it to the case whose marker came last and resumes with the next one
+      static CASE_STARTED_MS: std::sync::atomic::AtomicU64 = std::sync::atomic::AtomicU64::new(0);
+      if let Some(limit) = std::env::var("VH_CASE_TIMEOUT_MS").ok().and_then(|v| v.parse::<u64>().ok()) {
+        let t0 = std::time::Instant::now();
+        CASE_STARTED_MS.store(0, std::sync::atomic::Ordering::SeqCst);
+        std::thread::spawn(move || loop {
+          std::thread::sleep(std::time::Duration::from_millis(50));
+          let started = CASE_STARTED_MS.load(std::sync::atomic::Ordering::SeqCst);
+          if started != 0 && t0.elapsed().as_millis() as u64 > started + limit {
+            std::process::exit(97);
+          }
+        });
+        WATCHDOG_T0.with(|c| c.set(Some(t0)));
+      }
       for line in stdin.lock().lines() {
         let line = match line {
           Ok(l) => l,
@@ -891,6 +908,11 @@ fn main() {
           let _ = writeln!(o, "#CASE {}", n);
           let _ = o.flush();
         }
+        WATCHDOG_T0.with(|c| {
+          if let Some(t0) = c.get() {
+            CASE_STARTED_MS.store(t0.elapsed().as_millis() as u64 + 1, std::sync::atomic::Ordering::SeqCst);
+          }
+        });
         let res = match serde_json::from_str::<Value>(&line) {
           Ok(case) => {
             match catch_unwind(AssertUnwindSafe(|| f(&case))) {
